@@ -301,6 +301,8 @@ def _make_site(program, ex, module, node, ctor, callee, ctx, root) -> Site:
         if isinstance(syn, ast.Name):
             fn = _lookup_def(module, encl, syn.id)
             fmod = module
+        elif isinstance(syn, ast.Lambda) and syn in module.scopes:
+            fn, fmod = syn, module
         if fn is None:
             # the subscribe function is produced by an expression (a helper returning a closure, ...)
             t = ex.eval_in_scope(module, encl, farg, ctx=ctx)
